@@ -79,7 +79,7 @@ class Radio:
         cell = self.inv.heap[self.ref.ident]
         for name, v in list(cell.fields.items()):
             if isinstance(v, Ref) and v.kind == "bytearray" and len(self.inv.heap[v.ident].items or []) > 16:
-                self.inv.heap[v.ident].items = self.inv.heap[v.ident].items[:1]
+                self.inv.heap[v.ident].items = self.inv.heap[v.ident].items[:3]
         self.model.new_status(self.it0, self.inv, None, self.ref, None)
         self.inv.extra["txn"] = 0
 
